@@ -33,6 +33,12 @@ class Models:
         return None
 
     def const_model(self, raw, segs):
+        if len(segs) >= 2 and segs[-2] == 'kind' and segs[-1] in ('Adhoc', 'Trait', 'Boxed'):
+            return Opaque('anyhow_kind')
+        if segs[-1] == 'VariantNotFound':
+            return Opaque('strum::ParseError')
+        if raw.startswith('PhantomData'):
+            return UNIT
         return None
 
 
